@@ -328,8 +328,10 @@ def expected_hooks(model, rule_key, params):
         if isinstance(seg, L):
             for _ in seg.text:
                 offs.append(offs[-1] + 1)
-        else:
+        elif seg.filter is None:
             offs.append(offs[-1] + len(params[seg.name]))
+        else:
+            break            # the length of a converted value is not the length of its text; no hook lies behind one
     out = []
     for h in sorted(model.hooks, key=lambda h: len(pattern_of(HOOKS_U[h]))):
         hpos = pattern_of(HOOKS_U[h])
@@ -346,8 +348,13 @@ def make_query(history, N):
 
     wrong = [n for n in notes if "WRONGLY" in n]
 
+    typed = "f/#n" in model.routes        # an int-filtered rule is in force: the cost of one more character is x8 there
+
     def q(path: str):
-        assume(len(path) <= N)
+        assume(len(path) <= (N - 1 if typed else N))
+        if typed:
+            for ch in path:
+                assume(ord(ch) < 128)
         if wrong:
             return "history %r: %s (registration outcome per edit: %r)" % (history, wrong[0], notes)
         r = index_checks(edited, model)
@@ -483,5 +490,5 @@ def queries(tier):
     for h in hists:
         fn, notes = make_query(h, N)
         out.append(Q("state/%s" % _hid(h), fn, "history of %d edits (last: %s); every path with <= %d code points" % (
-            len(h), ",".join(notes[-3:]), N), timeout=150 if not T else 250, family="state", config=[list(map(str, op)) for op in h]))
+            len(h), ",".join(notes[-3:]), N) + " (4 code points < 128 while the int-filtered rule is registered)", timeout=150 if not T else 250, family="state", config=[list(map(str, op)) for op in h]))
     return out
